@@ -16,21 +16,21 @@ Definition injective (f : N -> N) : Prop := forall a b, f a = f b -> a = b.
    exceptions raised by user code anywhere), __exit__, close - writes exactly the file, reports exactly the dwell and lets
    escape exactly the exception that the model's session does on the abstracted op tree. *)
 Theorem SRC_session_is_model : forall ivar nos, interner ivar -> injective nos ->
-  forall pc ops, Forall (wf_pop nos) ops ->
+  forall pc ops, Forall (wf_pop ivar nos) ops ->
   src_session ivar pc ops = session (abs_cfg pc) (map (abs_op ivar) ops).
 Proof. intros ivar nos Hi Hn pc ops Hw. apply (session_equiv ivar Hi nos Hn). exact Hw. Qed.
 Print Assumptions SRC_session_is_model.
 
 (* each translated method simulates the model's function of the same name (the op-level statement behind the theorem above) *)
 Theorem SRC_exec_is_model : forall ivar nos, interner ivar -> injective nos ->
-  forall pc, laser_ok (abs_cfg pc) = true -> forall o, wf_pop nos o ->
+  forall pc, laser_ok (abs_cfg pc) = true -> forall o, wf_pop ivar nos o ->
   Sim ivar nos (src_exec pc o) (exec (abs_cfg pc) (abs_op ivar o)).
 Proof. intros ivar nos Hi Hn pc Hl o Hw. apply (Sim_exec ivar Hi nos Hn pc Hl o Hw). Qed.
 Print Assumptions SRC_exec_is_model.
 
 (* C03 for the translated source: balanced, properly nested loops in every written file, also after an exception *)
 Theorem SRC_C03_balanced : forall ivar nos, interner ivar -> injective nos ->
-  forall pc ops file d o, Forall (wf_pop nos) ops ->
+  forall pc ops file d o, Forall (wf_pop ivar nos) ops ->
   src_session ivar pc ops = Written file d o ->
   exists pre body,
     file = pre ++ flatten body /\ forallb is_dvar pre = true /\ wf body = true
@@ -43,7 +43,7 @@ Print Assumptions SRC_C03_balanced.
 
 (* C03 for the translated source: no controller error but not-loaded, shutter closed and rotation off at the end *)
 Theorem SRC_C03_no_error_shutter_rotation : forall ivar nos, interner ivar -> injective nos ->
-  forall pc ops file d o, Forall (wf_pop nos) ops ->
+  forall pc ops file d o, Forall (wf_pop ivar nos) ops ->
   cfg_ok (abs_cfg pc) -> pubs (map (abs_op ivar) ops) = true ->
   src_session ivar pc ops = Written file d o ->
   exists tree, parse file = Some tree /\
@@ -59,7 +59,7 @@ Print Assumptions SRC_C03_no_error_shutter_rotation.
 
 (* C12 for the translated source: the reported dwell is the dwell the written program executes *)
 Theorem SRC_C12_dwell : forall ivar nos, interner ivar -> injective nos ->
-  forall pc ops file d o, Forall (wf_pop nos) ops ->
+  forall pc ops file d o, Forall (wf_pop ivar nos) ops ->
   src_session ivar pc ops = Written file d o ->
   exists tree, parse file = Some tree /\
     forall call, (forall m p, dwell_sum (snd (call m p)) == 0)%Q ->
@@ -141,7 +141,7 @@ Example SRC_example :
   let path := [ {| px := 0; py := 0; pz := 0; pf := 5; ps := 0 |}; {| px := 0; py := 0; pz := 0; pf := 1; ps := 1 |};
                 {| px := 1; py := 0; pz := 0; pf := 1; ps := 1 |}; {| px := 1; py := 0; pz := 0; pf := 1; ps := 0 |} ] in
   let ops := [PDvar ["I"]; PFor (Some "i") (Some 2%Z) [PRepeat (Some 3%Z) [PWrite path; PShutter "On"; PRaise; PGoOrigin]]] in
-  Forall (wf_pop (fun n => n)) ops /\
+  Forall (wf_pop ivar0 (fun n => n)) ops /\
   match src_session ivar0 pc ops with
   | Written file d (Raised 3%N) => (30 <=? Z.of_nat (List.length file))%Z && negb (existsb (fun t => match t with TUnknown => true | _ => false end) file)
   | _ => false
